@@ -30,7 +30,7 @@ Proof. reflexivity. Qed.
 (* programs are read from all texts given, each text starting in the initial part (Model/Inputs.v over the REGENERATED visit_Program; every text begins
    with the `#program base.` of clingo's parser): whatever state the texts before it left behind, the statements of a text up to its first directive are
    in the initial part without the final flag, `base` names the initial part, `final` the always part with the flag *)
-Require Import String FromParts FutTransform Inputs InputsProofs.
+Require Import String FromParts FromShow FutTransform Inputs InputsProofs.
 Theorem C10_every_text_starts_in_the_initial_part : forall (R : Type) (st : pstate) (i : list (stmt R)),
   resolve R st (text R i) = resolve R initial_state i /\ state_after R st (text R i) = state_after R initial_state i.
 Proof. exact text_starts_in_the_initial_part. Qed.
